@@ -163,9 +163,10 @@ const (
 	pkDial
 	pkDisk
 	pkFS
+	pkClose
 )
 
-var pkNames = [...]string{"yield", "harness", "read", "write", "dial", "disk", "fs"}
+var pkNames = [...]string{"yield", "harness", "read", "write", "dial", "disk", "fs", "close"}
 
 type park struct {
 	g     string
@@ -223,7 +224,7 @@ type Sim struct {
 	StarveP    int // permille per step of starting a stretch
 	starveG    string
 	starveLeft int
-	TickTime  time.Duration // simulated time passed in tick actions and injected stalls
+	TickTime   time.Duration // simulated time passed in tick actions and injected stalls
 }
 
 var simEpoch = time.Date(2000, 1, 1, 0, 0, 0, 0, time.UTC)
@@ -537,6 +538,10 @@ func (s *Sim) collect() []Action {
 		switch p.kind {
 		case pkYield, pkHarness:
 			acts = append(acts, Action{Name: pkNames[p.kind], Weight: 10, p: p, Run: func() { s.unpark(p) }})
+		case pkClose:
+			// closing takes its time: until the call is released the
+			// connection works for everybody else
+			acts = append(acts, Action{Name: pkNames[p.kind], Weight: 3, p: p, Run: func() { s.unpark(p) }})
 		case pkRead:
 			if a, ok := s.readAction(p); ok {
 				acts = append(acts, a)
